@@ -37,10 +37,12 @@ type c15Script struct {
 	stateOK       bool
 	issCase       string
 	fetcherCalled int
-	asHostsAsked  []string // hosts of authorization-server metadata requests
-	prmNamesAS    string   // the authorization server the (valid) resource metadata names; "" = https://as.example
-	tokenAlwaysOK bool     // the token endpoint always answers with a token (no choice)
-	mcp           string   // URL of the MCP server whose 401 starts the flow (default c15MCP)
+	asHostsAsked  []string          // hosts of authorization-server metadata requests
+	rejectable    map[string]string // AS host -> variant of a metadata document it served that must be rejected
+	asmFirstOnly  bool              // the AS serves its metadata at the first well-known location asked only; the others are 404
+	prmNamesAS    string            // the authorization server the (valid) resource metadata names; "" = https://as.example
+	tokenAlwaysOK bool              // the token endpoint always answers with a token (no choice)
+	mcp           string            // URL of the MCP server whose 401 starts the flow (default c15MCP)
 }
 
 const c15RedirectHost = "redirect-target.example"
@@ -117,7 +119,16 @@ func (rt c15RT) RoundTrip(req *http.Request) (*http.Response, error) {
 		if redirected {
 			issuer = "https://as.example"
 		}
+		nthOfHost := 0
+		for _, h := range s.asHostsAsked {
+			if h == u.Host {
+				nthOfHost++
+			}
+		}
 		s.asHostsAsked = append(s.asHostsAsked, u.Host)
+		if s.asmFirstOnly && nthOfHost > 0 && !redirected {
+			return c15JSON(404, `{}`), nil // like most servers, this one has a single metadata location
+		}
 		doc := func(variant string, over map[string]any) string {
 			m := map[string]any{
 				"issuer": issuer, "authorization_endpoint": issuer + "/authorize", "token_endpoint": issuer + "/token?doc=" + variant,
@@ -135,7 +146,14 @@ func (rt c15RT) RoundTrip(req *http.Request) (*http.Response, error) {
 			b, _ := json.Marshal(m)
 			return string(b)
 		}
-		switch fault("asm-answer", 10) {
+		answer := fault("asm-answer", 10)
+		if answer >= 1 && answer <= 6 {
+			if s.rejectable == nil {
+				s.rejectable = map[string]string{}
+			}
+			s.rejectable[u.Host] = []string{"", "issuer-mismatch", "no-pkce", "token-http", "registration-data-scheme", "tos-javascript", "authz-javascript-loopback"}[answer]
+		}
+		switch answer {
 		case 0:
 			return c15JSON(200, doc("ok", nil)), nil
 		case 1:
@@ -207,6 +225,7 @@ func c15Run(ch *verifx.Chooser) (obs, bad, sig string, steps int) {
 	}
 	s := &c15Script{ch: ch}
 	s.issParam = ch.Free("as-advertises-iss-parameter", 2) == 1
+	s.asmFirstOnly = ch.Free("as-metadata-at-one-location-only", 2) == 1
 	cfg := &AuthorizationCodeHandlerConfig{
 		RedirectURL: "http://localhost:1/cb",
 		Client:      &http.Client{Transport: c15RT{s}},
@@ -328,6 +347,13 @@ func c15Run(ch *verifx.Chooser) (obs, bad, sig string, steps int) {
 		for _, bad := range []string{"doc=issuer-mismatch", "doc=no-pkce", "doc=token-http", "doc=registration-data-scheme", "doc=tos-javascript", "doc=authz-javascript-loopback"} {
 			if strings.Contains(last, bad) {
 				fail("rejected-metadata-used "+bad, "the code was sent to the token endpoint of metadata that must be rejected (%s)", last)
+			}
+		}
+		for host, variant := range s.rejectable {
+			// the server published metadata that must be rejected: that is the end of the flow with this
+			// server, not a reason to guess its endpoints as if it had published nothing
+			if strings.Contains(last, "host="+host+" doc= ") {
+				fail("rejected-metadata-forgotten "+variant, "%s served authorization-server metadata that must be rejected (%s), yet the code was exchanged at its default endpoints as if no metadata existed (%s)", host, variant, last)
 			}
 		}
 		for _, host := range []string{"as-of-mismatching-prm.example", "as-plain-http.example", "as-of-html-prm.example"} {
